@@ -54,7 +54,7 @@ struct prog {
         int nops, pc;
         struct trec tr[POPS];
         struct trec *cur;
-        uint8_t scratch[4096] __attribute__((aligned(64)));
+        uint8_t scratch[24576] __attribute__((aligned(64)));
         const char *mode;
 };
 
@@ -149,7 +149,7 @@ prog_plan(struct prog *p, int cfg, uint64_t seed, int slot0)
                         p->ops[n++].kind = OP_FLUSH;
                 if (rng_below(&r, 4) == 0) {
                         p->ops[n].kind = OP_DIRECT;
-                        p->ops[n++].arg = (int16_t) rng_below(&r, 8);
+                        p->ops[n++].arg = (int16_t) rng_below(&r, 26);
                 }
         }
         for (int i = 0; i < PN + 2 && n < POPS - 1; i++)
@@ -225,10 +225,180 @@ prog_direct(struct prog *p, int k)
                 h = fnv1(h, s + 1024, 16);
                 h = fnv1(h, s + 1100, 16);
                 break;
-        default:
+        case 7:
                 mcall("des_key_sched", (void *) m->des_key_sched, 2, (uint64_t) (s + 512), (uint64_t) s);
                 h = fnv1(h, s + 512, 128);
                 break;
+        default: {
+                /* multi-buffer 3GPP, QUIC, GCM/GHASH and ChaCha20-Poly1305 direct functions (C glue with local scratch
+                 * arrays around the kernels): n buffers of unequal lengths laid out in the program's own scratch area */
+                enum { NBUF = 9, BL = 400 };
+                uint8_t *in = s + 4096, *out = s + 4096 + NBUF * BL, *ivs = s + 4096 + 2 * NBUF * BL, *ks = s + 16384;
+                const void *pin[NBUF], *piv[NBUF], *pks[NBUF];
+                void *pout[NBUF];
+                uint32_t lens[NBUF];
+                uint64_t iv64[NBUF], lens64[NBUF];
+                uint8_t tagb[NBUF][16];
+                void *ptag[NBUF];
+                rng_bytes(&r, in, NBUF * BL);
+                rng_bytes(&r, ivs, NBUF * 32);
+                memset(out, 0, NBUF * BL);
+                memset(tagb, 0, sizeof tagb);
+                int n = 2 + (int) rng_below(&r, NBUF - 2);
+                for (int i = 0; i < NBUF; i++) {
+                        pin[i] = in + i * BL;
+                        pout[i] = out + i * BL;
+                        piv[i] = ivs + i * 32;
+                        pks[i] = ks;
+                        ptag[i] = tagb[i];
+                        lens[i] = 4 * (1 + rng_below(&r, BL / 4 - 1));
+                        lens64[i] = lens[i];
+                        iv64[i] = rng_u64(&r);
+                }
+                switch (k) {
+                case 8:
+                        mcall("snow3g_init_key_sched", (void *) m->snow3g_init_key_sched, 2, (uint64_t) s, (uint64_t) ks);
+                        mcall("snow3g_f8_n_buffer", (void *) m->snow3g_f8_n_buffer, 6, (uint64_t) ks, (uint64_t) piv, (uint64_t) pin, (uint64_t) pout,
+                              (uint64_t) lens, (uint64_t) n);
+                        break;
+                case 9:
+                        mcall("snow3g_init_key_sched", (void *) m->snow3g_init_key_sched, 2, (uint64_t) s, (uint64_t) ks);
+                        mcall("snow3g_f8_n_buffer_multikey", (void *) m->snow3g_f8_n_buffer_multikey, 6, (uint64_t) pks, (uint64_t) piv, (uint64_t) pin,
+                              (uint64_t) pout, (uint64_t) lens, (uint64_t) n);
+                        break;
+                case 10:
+                        mcall("snow3g_init_key_sched", (void *) m->snow3g_init_key_sched, 2, (uint64_t) s, (uint64_t) ks);
+                        mcall("snow3g_f8_8_buffer_multikey", (void *) m->snow3g_f8_8_buffer_multikey, 5, (uint64_t) pks, (uint64_t) piv, (uint64_t) pin,
+                              (uint64_t) pout, (uint64_t) lens);
+                        n = 8;
+                        break;
+                case 11:
+                        mcall("snow3g_init_key_sched", (void *) m->snow3g_init_key_sched, 2, (uint64_t) s, (uint64_t) ks);
+                        mcall("snow3g_f8_2_buffer", (void *) m->snow3g_f8_2_buffer, 9, (uint64_t) ks, (uint64_t) piv[0], (uint64_t) piv[1], (uint64_t) pin[0],
+                              (uint64_t) pout[0], (uint64_t) lens[0], (uint64_t) pin[1], (uint64_t) pout[1], (uint64_t) lens[1]);
+                        n = 2;
+                        break;
+                case 12:
+                        mcall("snow3g_init_key_sched", (void *) m->snow3g_init_key_sched, 2, (uint64_t) s, (uint64_t) ks);
+                        mcall("snow3g_f9_1_buffer", (void *) m->snow3g_f9_1_buffer, 5, (uint64_t) ks, (uint64_t) piv[0], (uint64_t) pin[0],
+                              (uint64_t) (lens[0] * 8 - 3), (uint64_t) pout[0]);
+                        n = 1;
+                        lens[0] = 4;
+                        break;
+                case 13:
+                        mcall("kasumi_init_f8_key_sched", (void *) m->kasumi_init_f8_key_sched, 2, (uint64_t) s, (uint64_t) ks);
+                        mcall("f8_n_buffer", (void *) m->f8_n_buffer, 6, (uint64_t) ks, (uint64_t) iv64, (uint64_t) pin, (uint64_t) pout, (uint64_t) lens,
+                              (uint64_t) n);
+                        break;
+                case 14:
+                        mcall("kasumi_init_f8_key_sched", (void *) m->kasumi_init_f8_key_sched, 2, (uint64_t) s, (uint64_t) ks);
+                        mcall("f8_3_buffer", (void *) m->f8_3_buffer, 11, (uint64_t) ks, iv64[0], iv64[1], iv64[2], (uint64_t) pin[0], (uint64_t) pout[0],
+                              (uint64_t) pin[1], (uint64_t) pout[1], (uint64_t) pin[2], (uint64_t) pout[2], (uint64_t) lens[0]);
+                        n = 3;
+                        lens[1] = lens[2] = lens[0];
+                        break;
+                case 15:
+                        mcall("kasumi_init_f9_key_sched", (void *) m->kasumi_init_f9_key_sched, 2, (uint64_t) s, (uint64_t) ks);
+                        mcall("f9_1_buffer", (void *) m->f9_1_buffer, 4, (uint64_t) ks, (uint64_t) pin[0], (uint64_t) (lens[0] + 5), (uint64_t) pout[0]);
+                        n = 1;
+                        lens[0] = 4;
+                        break;
+                case 16: {
+                        const void *pk[NBUF];
+                        for (int i = 0; i < NBUF; i++)
+                                pk[i] = s + 16 * (i % 4);
+                        mcall("eea3_n_buffer", (void *) m->eea3_n_buffer, 6, (uint64_t) pk, (uint64_t) piv, (uint64_t) pin, (uint64_t) pout, (uint64_t) lens,
+                              (uint64_t) n);
+                        break;
+                }
+                case 17: {
+                        const void *pk[NBUF];
+                        uint32_t *pmac[NBUF];
+                        uint32_t bits[NBUF];
+                        for (int i = 0; i < NBUF; i++) {
+                                pk[i] = s + 16 * (i % 4);
+                                pmac[i] = (uint32_t *) (out + i * BL);
+                                bits[i] = lens[i] * 8 - (uint32_t) i;
+                                lens[i] = 4;
+                        }
+                        mcall("eia3_n_buffer", (void *) m->eia3_n_buffer, 6, (uint64_t) pk, (uint64_t) piv, (uint64_t) pin, (uint64_t) bits, (uint64_t) pmac,
+                              (uint64_t) n);
+                        break;
+                }
+                case 18: { /* QUIC AEAD batch */
+                        struct gcm_key_data *kd = (struct gcm_key_data *) (s + 8192);
+                        mcall("gcm128_pre", (void *) m->gcm128_pre, 2, (uint64_t) s, (uint64_t) kd);
+                        mcall("imb_quic_aes_gcm", (void *) imb_quic_aes_gcm, 13, (uint64_t) m, (uint64_t) kd, (uint64_t) IMB_KEY_128_BYTES, (uint64_t) IMB_DIR_ENCRYPT,
+                              (uint64_t) pout, (uint64_t) pin, (uint64_t) lens64, (uint64_t) piv, (uint64_t) piv, (uint64_t) 13, (uint64_t) ptag, (uint64_t) 16,
+                              (uint64_t) n);
+                        h = fnv1(h, tagb, sizeof tagb);
+                        break;
+                }
+                case 19: { /* QUIC header protection */
+                        uint8_t ek[240] __attribute__((aligned(16))), dk[240] __attribute__((aligned(16)));
+                        mcall("keyexp_128", (void *) m->keyexp_128, 3, (uint64_t) s, (uint64_t) ek, (uint64_t) dk);
+                        mcall("imb_quic_hp_aes_ecb", (void *) imb_quic_hp_aes_ecb, 6, (uint64_t) m, (uint64_t) ek, (uint64_t) pout, (uint64_t) pin, (uint64_t) n,
+                              (uint64_t) IMB_KEY_128_BYTES);
+                        for (int i = 0; i < NBUF; i++)
+                                lens[i] = 5;
+                        break;
+                }
+                case 20:
+                        mcall("imb_quic_chacha20_poly1305", (void *) imb_quic_chacha20_poly1305, 11, (uint64_t) m, (uint64_t) s, (uint64_t) IMB_DIR_ENCRYPT,
+                              (uint64_t) pout, (uint64_t) pin, (uint64_t) lens64, (uint64_t) piv, (uint64_t) piv, (uint64_t) 11, (uint64_t) ptag, (uint64_t) n);
+                        h = fnv1(h, tagb, sizeof tagb);
+                        break;
+                case 21:
+                        mcall("imb_quic_hp_chacha20", (void *) imb_quic_hp_chacha20, 5, (uint64_t) m, (uint64_t) s, (uint64_t) pout, (uint64_t) pin, (uint64_t) n);
+                        for (int i = 0; i < NBUF; i++)
+                                lens[i] = 5;
+                        break;
+                case 22: { /* GCM one-shot + GHASH */
+                        struct gcm_key_data *kd = (struct gcm_key_data *) (s + 8192);
+                        struct gcm_context_data *ctx = (struct gcm_context_data *) (s + 12288);
+                        mcall("gcm256_pre", (void *) m->gcm256_pre, 2, (uint64_t) s, (uint64_t) kd);
+                        mcall("gcm256_enc", (void *) m->gcm256_enc, 10, (uint64_t) kd, (uint64_t) ctx, (uint64_t) pout[0], (uint64_t) pin[0], (uint64_t) lens[0],
+                              (uint64_t) piv[0], (uint64_t) pin[1], (uint64_t) 20, (uint64_t) tagb[0], (uint64_t) 16);
+                        mcall("ghash", (void *) m->ghash, 5, (uint64_t) kd, (uint64_t) pin[2], (uint64_t) lens[2], (uint64_t) tagb[1], (uint64_t) 16);
+                        h = fnv1(h, tagb, 32);
+                        n = 1;
+                        break;
+                }
+                case 23: { /* ChaCha20-Poly1305 init/update/finalize */
+                        struct chacha20_poly1305_context_data *ctx = (struct chacha20_poly1305_context_data *) (s + 12288);
+                        mcall("chacha20_poly1305_init", (void *) m->chacha20_poly1305_init, 5, (uint64_t) s, (uint64_t) ctx, (uint64_t) piv[0], (uint64_t) pin[1],
+                              (uint64_t) 17);
+                        mcall("chacha20_poly1305_enc_update", (void *) m->chacha20_poly1305_enc_update, 5, (uint64_t) s, (uint64_t) ctx, (uint64_t) pout[0],
+                              (uint64_t) pin[0], (uint64_t) lens[0]);
+                        mcall("chacha20_poly1305_finalize", (void *) m->chacha20_poly1305_finalize, 3, (uint64_t) ctx, (uint64_t) tagb[0], (uint64_t) 16);
+                        h = fnv1(h, tagb, 16);
+                        n = 1;
+                        break;
+                }
+                case 24: { /* HMAC key preparation */
+                        uint8_t ipad[64], opad[64];
+                        mcall("imb_hmac_ipad_opad", (void *) imb_hmac_ipad_opad, 6, (uint64_t) m, (uint64_t) IMB_AUTH_HMAC_SHA_384, (uint64_t) in,
+                              (uint64_t) (1 + lens[0] % 200), (uint64_t) ipad, (uint64_t) opad);
+                        h = fnv1(h, ipad, 64);
+                        h = fnv1(h, opad, 64);
+                        n = 0;
+                        break;
+                }
+                default: { /* HEC + CRC family */
+                        uint32_t a = (uint32_t) mcall("hec_32", (void *) m->hec_32, 1, (uint64_t) in);
+                        uint64_t b = mcall("hec_64", (void *) m->hec_64, 1, (uint64_t) (in + 8));
+                        uint32_t c1 = (uint32_t) mcall("crc24_lte_a", (void *) m->crc24_lte_a, 2, (uint64_t) in, (uint64_t) lens[0]);
+                        uint32_t c2 = (uint32_t) mcall("crc16_x25", (void *) m->crc16_x25, 2, (uint64_t) in, (uint64_t) lens[1]);
+                        h = fnv1(h, &a, 4);
+                        h = fnv1(h, &b, 8);
+                        h = fnv1(h, &c1, 4);
+                        h = fnv1(h, &c2, 4);
+                        n = 0;
+                }
+                }
+                for (int i = 0; i < n; i++)
+                        h = fnv1(h, pout[i], lens[i]);
+        }
         }
         p->cur->h = h;
 }
